@@ -270,7 +270,7 @@ def tierwise_cases(draw):
     ts = sorted({t for tr in spec["tiers"] for e in tr["entries"] for t in e[:-1]} | {spec["minT"], spec["maxT"]})
     mids = [(x + y) / 2 for x, y in zip(ts, ts[1:])]
     pick = st.sampled_from(ts + mids)
-    kind = draw(st.sampled_from(["crop", "erase", "insert", "edit", "crop", "insert"]))
+    kind = draw(st.sampled_from(["crop", "erase", "insert", "edit", "crop", "insert", "erase"]))
     op = {"kind": kind}
     if kind in ("crop", "erase"):
         a, b = draw(pick), draw(pick)
@@ -363,7 +363,7 @@ CHECKS = [
           doc="all add/remove/rename/replace sequences over 4 names to depth 5 (6), memoised on model state"),
     Check("map_spans", run_span_history, strategy=lambda tier: span_histories(), quick_n=800, thorough_n=12000,
           doc="random histories with tiers of differing spans: span only widens"),
-    Check("tierwise", run_tierwise, strategy=lambda tier: tierwise_cases(), quick_n=1800, thorough_n=20000,
+    Check("tierwise", run_tierwise, strategy=lambda tier: tierwise_cases(), quick_n=2600, thorough_n=20000,
           doc="Textgrid-level crop/eraseRegion/insertSpace/editTimestamps == per-tier operation; validate()"),
     Check("merge_tiers", c10.run_merge_tiers, strategy=lambda tier: c10.merge_cases(), quick_n=300, thorough_n=6000),
 ]
